@@ -56,7 +56,7 @@ class PROP(Prop):
                         nacc = k // g
                         rem = k - nacc * g
                         pre = ["a%d" % g] * nacc + (["a%d" % rem] if rem else [])
-                        for fault in ["z", "e:ConnectionReset", "e:BrokenPipe", "e:Other"]:
+                        for fault in ["z", "e:ConnectionReset", "e:BrokenPipe", "e:Other", "e:Interrupted", "e:WouldBlock"]:
                             for pend in (False, True):
                                 ev = list(pre)
                                 if pend:
@@ -71,7 +71,7 @@ class PROP(Prop):
                             nacc = k // g
                             rem = k - nacc * g
                             pre = ["a%d" % g] * nacc + (["a%d" % rem] if rem else [])
-                            fault = rng.choice(["z", "e:ConnectionReset", "e:Other", "e:TimedOut"])
+                            fault = rng.choice(["z", "e:ConnectionReset", "e:Other", "e:TimedOut", "e:Interrupted"])
                             req2 = ("RHR", rng.randrange(65536), 1)
                             frame2 = cligen.frame(proto, 1, slave, mb.spec_req_pdu(req2))
                             reply2 = cligen.frame(proto, 1, slave, mb.spec_rsp_pdu(("RHR", [rng.randrange(65536)])))
